@@ -5,5 +5,6 @@ namespace Driver.C18
 def handle (args : List String) : String :=
   match args with
   | "reset" :: _ => "ok\tok"
+  | "context-edit" :: _ => "ok\tok"
   | _ => "skip\t1"
 end Driver.C18
